@@ -200,7 +200,21 @@ fn with_catalog(mut d: CtehexmlData) -> CtehexmlData {
 }
 
 /// the pipeline of each file kind; Ok(description) or Err(message)
+/// what the export tool does after the conversion: indicators of the converted model (U values, shading by ray
+/// casting) to fill the `extra` list; part of collect_hulc_data
+fn tool_stage(m: &mut Model, enabled: bool) -> Result<&'static str, String> {
+    if !enabled {
+        return Ok("");
+    }
+    hulc2model::fix_ecdata_from_extra(m, &None::<&str>, &None).map_err(|e| format!("extra: {}", e))?;
+    Ok(" +tool-stage")
+}
+
 pub fn run_pipeline(kind: Kind, text: &str, through_real_entry: bool) -> Result<String, String> {
+    run_pipeline_with(kind, text, through_real_entry, false)
+}
+
+pub fn run_pipeline_with(kind: Kind, text: &str, through_real_entry: bool, with_tool_stage: bool) -> Result<String, String> {
     match kind {
         Kind::Ctehexml => {
             let data = if through_real_entry {
@@ -208,8 +222,9 @@ pub fn run_pipeline(kind: Kind, text: &str, through_real_entry: bool) -> Result<
             } else {
                 with_catalog(ctehexml::parse(text).map_err(|e| format!("parse: {}", e))?)
             };
-            let m = Model::try_from(&data).map_err(|e| format!("convert: {}", e))?;
-            Ok(format!("model walls={} windows={}", m.walls.len(), m.windows.len()))
+            let mut m = Model::try_from(&data).map_err(|e| format!("convert: {}", e))?;
+            let ts = tool_stage(&mut m, with_tool_stage)?;
+            Ok(format!("model walls={} windows={}{}", m.walls.len(), m.windows.len(), ts))
         }
         Kind::Cte => {
             let bdl = Data::new(text).map_err(|e| format!("parse: {}", e))?;
@@ -260,7 +275,10 @@ pub fn worker(sub: &str, v: Value) -> Value {
         let l = lines.get(c.line).map(|s| s.trim()).unwrap_or("");
         l.is_empty() || l.starts_with('$')
     };
-    match run_pipeline(kind, &damaged, real) {
+    // the export tool goes on to compute the indicators of what it converted (collect_hulc_data): that stage runs
+    // for every edit that puts an out-of-range or non-numeric value somewhere and for one in four of the others
+    let tool = kind == Kind::Ctehexml && (c.edit.starts_with("number->") || c.edit == "intact" || c.edit == "saved-input" || fnv64(format!("t{}{}{}", c.file, c.line, c.edit).as_bytes()) % 4 == 0);
+    match run_pipeline_with(kind, &damaged, real, tool) {
         Ok(s) => json!({"applied": true, "result": "ok", "detail": s, "trivial": trivial}),
         Err(e) => json!({"applied": true, "result": "err", "detail": e.chars().take(160).collect::<String>(), "trivial": trivial}),
     }
@@ -356,6 +374,9 @@ fn check_case(h: &CaseH, c: &FaultCase) -> Verdict {
             }
             let r = v["result"].as_str().unwrap_or("");
             h.class(&format!("{}/{}/{}", kname, c.edit, r));
+            if v["detail"].as_str().map_or(false, |d| d.contains("+tool-stage")) {
+                h.class("converted-and-indicators-computed");
+            }
             if v["trivial"] != json!(true) {
                 h.nontrivial(fnv64(format!("{}|{}|{}", c.file, c.line, c.edit).as_bytes()));
             }
@@ -377,7 +398,7 @@ fn short(p: &str) -> &str {
 
 pub fn run(args: &Args) -> ! {
     let ctx = Ctx::new("C19", "fault_enumeration", args);
-    ctx.rule("fault enumeration: for every shipped project file (.ctehexml, legacy .cte, KyGananciasSolares.txt, NewBDL_O.tbl; located by glob at run time) and every line: delete / duplicate / truncate-after / first number -> abc, 1e39, -1, NaN, 0, 99 / rename the quoted name / delete the enclosing block; plus the intact file. thorough = every line; quick = a seeded 1/48 slice of the lines of every file plus one line of every distinct attribute key and block type per file kind (all edit kinds on each chosen line). extra_files: the same edits of every KyGananciasSolares.txt / NewBDL_O.tbl that lies next to a project (thorough: every line, quick: a seeded 1/6 slice), placed with the intact project file in a scratch directory and read through hulc2model::collect_hulc_data(dir, true, true). saved_inputs: crashing inputs of earlier fuzz campaigns kept as plain files under regressions/C19/inputs, replayed in every run. Each damaged text goes through parse (+ LIDER catalogue merge) + Model::try_from (kyg/tbl: parse) in a worker process under a 60 s watchdog: Ok or Err passes, panic / hang / process death is a violation, one per distinct panic signature (file + function + masked message). Non-trivial: the damaged line is neither blank nor a comment.");
+    ctx.rule("fault enumeration: for every shipped project file (.ctehexml, legacy .cte, KyGananciasSolares.txt, NewBDL_O.tbl; located by glob at run time) and every line: delete / duplicate / truncate-after / first number -> abc, 1e39, -1, NaN, 0, 99 / rename the quoted name / delete the enclosing block; plus the intact file. thorough = every line; quick = a seeded 1/48 slice of the lines of every file plus one line of every distinct attribute key and block type per file kind (all edit kinds on each chosen line). extra_files: the same edits of every KyGananciasSolares.txt / NewBDL_O.tbl that lies next to a project (thorough: every line, quick: a seeded 1/6 slice), placed with the intact project file in a scratch directory and read through hulc2model::collect_hulc_data(dir, true, true). saved_inputs: crashing inputs of earlier fuzz campaigns kept as plain files under regressions/C19/inputs, replayed in every run. For .ctehexml projects the conversion is followed by the stage the export tool adds (fix_ecdata_from_extra: indicators of the converted model, i.e. U values and shading by ray casting) for every number edit and a quarter of the others. Each damaged text goes through parse (+ LIDER catalogue merge) + Model::try_from (kyg/tbl: parse) in a worker process under a 60 s watchdog: Ok or Err passes, panic / hang / process death is a violation, one per distinct panic signature (file + function + masked message). Non-trivial: the damaged line is neither blank nor a comment.");
     ctx.assume("the LIDER catalogue is decoded once per worker and merged per case exactly as parse_with_catalog does; 1 case in 64 goes through the real parse_with_catalog as a cross-check");
     ctx.replay_regressions(replay_one);
     let files = corpus();
@@ -502,6 +523,7 @@ pub fn run(args: &Args) -> ! {
     for k in ["Ctehexml", "Cte", "Kyg", "Tbl"] {
         ctx.require_class(&format!("faults/{}/intact/ok", k));
     }
+    ctx.require_class("faults/converted-and-indicators-computed");
     ctx.finish()
 }
 
